@@ -15,11 +15,9 @@ import (
 // parseExpression parses an expression with OR operators (lowest precedence)
 func (p *Parser) parseExpression() (ast.Expression, error) {
 	// Check context if available
-	if p.ctx != nil {
-		if err := p.ctx.Err(); err != nil {
-			// Context cancellation is not a syntax error, wrap it directly
-			return nil, fmt.Errorf("parsing cancelled: %w", err)
-		}
+	if err := p.pollContext(); err != nil {
+		// Context cancellation is not a syntax error, wrap it directly
+		return nil, fmt.Errorf("parsing cancelled: %w", err)
 	}
 
 	// Check recursion depth to prevent stack overflow
